@@ -645,6 +645,14 @@ func (fc *FnCtx) doConvert(x *ssa.Convert) {
 		if _, ok := from.Underlying().(*types.Slice); ok {
 			r := fc.freshVal("bstr", to)
 			fc.cur.assume(eq(app("strlen", r.L[0]), v.L[2]))
+			if et := from.Underlying().(*types.Slice).Elem(); fc.contentOn() && typeKey(et) == "uint8" {
+				// contents: strat(r, j) == bytes[j]
+				fc.hasQuant = true
+				arr := app("select", fc.cur.get("E|uint8|0", arraySort(SortRef, arraySort(bvSort(64), bvSort(8)))), v.L[0])
+				j := qsym(fc.fresh("qs"))
+				fc.cur.assume(fmt.Sprintf("(forall ((%s (_ BitVec 64))) (! (=> (bvult %s %s) (= (strat %s %s) (select %s (bvadd %s %s)))) :pattern ((strat %s %s))))",
+					j, j, v.L[2], r.L[0], j, arr, v.L[1], j, r.L[0], j))
+			}
 			fc.setVal(x, r)
 			return
 		}
@@ -658,6 +666,13 @@ func (fc *FnCtx) doConvert(x *ssa.Convert) {
 			fc.cur.assume(and(app("bvsle", ln, cp), app("bvsle", cp, maxCapLit)))
 			fc.havocElems(to.Underlying().(*types.Slice).Elem(), ref)
 			_ = isEmpty
+			if et := to.Underlying().(*types.Slice).Elem(); fc.contentOn() && typeKey(et) == "uint8" {
+				fc.hasQuant = true
+				arr := app("select", fc.cur.get("E|uint8|0", arraySort(SortRef, arraySort(bvSort(64), bvSort(8)))), ref)
+				j := qsym(fc.fresh("qs"))
+				fc.cur.assume(fmt.Sprintf("(forall ((%s (_ BitVec 64))) (! (=> (bvult %s %s) (= (select %s %s) (strat %s %s))) :pattern ((select %s %s))))",
+					j, j, ln, arr, j, v.L[0], j, arr, j))
+			}
 			fc.setVal(x, Val{T: to, L: []string{ref, bvLit(0, 64), ln, cp}})
 			return
 		}
@@ -936,7 +951,11 @@ func (fc *FnCtx) doReturn(x *ssa.Return) {
 	fc.results = res
 	env := fc.contractEnv(fc.cur, fc.entry)
 	env.results = res
+	fc.bytesFrameObligation(env, x.Pos())
 	for i, e := range fc.c.Ensures {
+		if fc.skipEnsures(fc.c, i) {
+			continue
+		}
 		goal := env.evalBool(e)
 		fc.obligeAt(fc.cur, "post", fmt.Sprintf("e%d!ret%d", i+1, fc.retCount), goal, x.Pos(), "postcondition: "+fc.c.EnsuresSrc[i])
 	}
@@ -1007,6 +1026,11 @@ func (fc *FnCtx) checkInvariant(li *loopInfo, st *State, phiVals map[*ssa.Phi]Va
 	}
 	invs := fc.c.LoopInv[li.ord]
 	env := fc.loopEnv(li, st, phiVals)
+	if g := fc.bytesFrameFormula(fc.contractEnv(st, fc.entry), st); g != "" {
+		// automatic invariant of functions whose modifies clause names byte arrays individually
+		fc.hasQuant = true
+		fc.obligeAt(st, kind, fmt.Sprintf("loop%d!bytesframe", li.ord), g, li.header.Instrs[0].Pos(), kind+": byte arrays other than the named ones are unchanged since entry")
+	}
 	for i, inv := range invs {
 		goal := env.evalBool(inv)
 		fc.obligeAt(st, kind, fmt.Sprintf("loop%d!i%d", li.ord, i+1), goal, li.header.Instrs[0].Pos(), kind+": "+fc.c.LoopInvSrc[li.ord][i])
@@ -1021,6 +1045,10 @@ func (fc *FnCtx) assumeInvariant(li *loopInfo, st *State) {
 		return
 	}
 	env := fc.loopEnv(li, st, li.phiFresh)
+	if g := fc.bytesFrameFormula(fc.contractEnv(st, fc.entry), st); g != "" {
+		fc.hasQuant = true
+		st.assume(g)
+	}
 	for _, inv := range fc.c.LoopInv[li.ord] {
 		st.assume(env.evalBool(inv))
 	}
@@ -1105,4 +1133,57 @@ func (fc *FnCtx) entryHeapFacts(v Val) string {
 		}
 	}
 	return and(facts...)
+}
+
+// bytesFrameObligation: a modifies clause that names byte arrays individually ("bytesof b", no plain "bytes") promises
+// that every byte array that existed at entry, other than the named ones, is unchanged at exit.
+func (fc *FnCtx) bytesFrameObligation(env *Env, pos token.Pos) {
+	goal := fc.bytesFrameFormula(env, fc.cur)
+	if goal == "" {
+		return
+	}
+	fc.hasQuant = true
+	fc.obligeAt(fc.cur, "frame", "bytesof", goal, pos, "frame: only the byte arrays named in the modifies clause (and arrays allocated here) are written")
+}
+
+// bytesFrameFormula: "" if the contract does not name byte arrays individually or nothing was written.
+func (fc *FnCtx) bytesFrameFormula(env *Env, cur *State) string {
+	c := fc.c
+	if c == nil || !c.HasModifies || c.Trusted || c.AssumeFrame {
+		return ""
+	}
+	var bases []string
+	for _, item := range c.Modifies {
+		switch {
+		case item == "bytes" || item == "all":
+			return ""
+		case strings.HasPrefix(item, "bytesof "):
+			e, err := parseExprSrc(strings.TrimPrefix(item, "bytesof "))
+			if err != nil {
+				userErr("modifies item %s: %v", item, err)
+			}
+			saved := env.inOld
+			env.inOld = true
+			st := env.st
+			env.st = env.old
+			sv := env.eval(e)
+			env.st, env.inOld = st, saved
+			bases = append(bases, sv.L[0])
+		}
+	}
+	if len(bases) == 0 {
+		return ""
+	}
+	srt := arraySort(SortRef, arraySort(bvSort(64), bvSort(8)))
+	now := cur.get("E|uint8|0", srt)
+	then := fc.entry.get("E|uint8|0", srt)
+	if now == then {
+		return ""
+	}
+	r := qsym(fc.fresh("qr"))
+	conds := []string{app("bvult", r, "allocbase")}
+	for _, b := range bases {
+		conds = append(conds, not(eq(r, b)))
+	}
+	return fmt.Sprintf("(forall ((%s (_ BitVec 64))) (! (=> %s (= (select %s %s) (select %s %s))) :pattern ((select %s %s))))", r, and(conds...), now, r, then, r, now, r)
 }
